@@ -1,4 +1,5 @@
 """C16 - derived introspection describes the Rust type it was derived from (R16.1 - R16.3)."""
+CONFIGS_THOROUGH = ('full',)    # the introspection feature implies std: there is no second configuration with Type impls
 import re
 import ast as A
 import common as C
@@ -117,7 +118,8 @@ def check_impls(fx, rep, crate, cfg):
             params = [u['rv']['op'].get('def') or '' for blk, i, u in body.iter_assigns() if u['rv']['k'] == 'use' and u['rv']['op'].get('k') == 'const']
             rep.check(any('Type::TYPE' in p for p in params), 'R16.1', key + '|element', body.where(), 'the element description is `<T as Type>::TYPE` of the impl\'s parameter',
                       'the element of `%s` is not described by its parameter\'s `<T as Type>::TYPE`' % self_ty)
-    rep.floor('R16.1', 45 if cfg in ('full', 'ws') else 20, 'impls of introspect::Type (%s)' % cfg)
+    if n < (45 if cfg == 'full' else 20):
+        rep.bad('R16.1', 'floor|%s' % cfg, '-', 'expected at least %d impls of introspect::Type in configuration %s, found %d: anchor lost' % (45 if cfg == 'full' else 20, cfg, n))
 
 
 def check_templates(fx, rep):
@@ -196,7 +198,7 @@ def check(fx, rep, tier):
     rep.rule('R16.1', 'every impl of introspect::Type builds the IDL constructor the statement prescribes for its Rust type (table), composite impls describe their own parameter')
     rep.rule('R16.2', 'derive templates: name = identifier string, type = <FieldTy as Type>::TYPE, doc comments carried, members emitted in declaration order into one list')
     rep.rule('R16.3', 'rendering / parsing of assembled interfaces: rules of C14')
-    for cfg in ['full'] + (['ws', 'nostd'] if tier == 'thorough' else []):
+    for cfg in ['full']:
         check_impls(fx, rep, fx.crate('zlink_core', cfg), cfg)
     check_templates(fx, rep)
     import engine, c14
